@@ -10,7 +10,7 @@ import sys
 
 import z3
 
-from .values import (PyRaise, Unsupported, SOpt, FinStr, SStr, OpaqueStr, EnumMember, SEnum, Obj, FuncVal,
+from .values import (PyRaise, Unsupported, SOpt, FinStr, SStr, OpaqueStr, EnumMember, SEnum, Obj, FuncVal, Tok,
                      ClassVal, Prop, ClassMethod, StaticMethod, BoundMethod, Builtin, ExtType, ModVal, is_z3,
                      is_symbolic)
 from .logic import And, Or, Not, If
@@ -195,6 +195,10 @@ class World:
                     v = self._import(src, a.name)
                     if v is not None:
                         m.globals[nm] = v
+                    elif src in self.modules:
+                        # a name of a repo module the loader has no value for (compiled regexes, the
+                        # registry of callables, ...): an opaque token, usable only by being passed on
+                        m.globals[nm] = Tok("%s.%s" % (self.short(src), a.name))
             elif isinstance(s, ast.Import):
                 for a in s.names:
                     nm = a.asname or a.name
@@ -278,7 +282,8 @@ class World:
             ("copy", "copy"): Builtin("copy", _copy),
             ("math", "log"): Builtin("log", _log),
             ("math", "exp"): Builtin("exp", _exp),
-            ("itertools", "chain"): ModVal("chain"),
+            ("itertools", "chain"): ModVal("chain", {"from_iterable": Builtin(
+                "chain.from_iterable", lambda it, a, k: [y for x in it.iterate(a[0]) for y in it.iterate(x)])}),
         }
         if (modname, name) in ext:
             return ext[(modname, name)]
@@ -289,7 +294,10 @@ class World:
     def _ext_module(self, name):
         if name == "math":
             return ModVal("math", {"log": Builtin("log", _log), "exp": Builtin("exp", _exp)})
-        return ModVal(name)
+        m = ModVal(name)
+        if name in ("re", "regex"):
+            m.opaque = True      # calls become uninterpreted terms (A-regex)
+        return m
 
     def _load_module_objects(self):
         """module-level names bound to objects of repo classes (e.g. a shared Time constant):
@@ -588,29 +596,36 @@ class World:
             v = it.unwrap(a[0])
             return If(v < 0, -v, v)
 
+        def _extreme(it, a, k, op):
+            key = k.get("key")
+            if set(k) - {"key", "default"}:
+                raise Unsupported("min/max keyword")
+            xs = it.iterate(a[0]) if len(a) == 1 else list(a)
+            if not xs:
+                if "default" in k:
+                    return k["default"]
+                raise PyRaise("ValueError", "arg is an empty sequence")
+            scalar = lambda x: isinstance(x, (int, float)) or (is_z3(x) and (z3.is_int(x) or z3.is_real(x)))
+            if key is None and all(scalar(it.unwrap(x)) for x in xs):
+                xs = [it.unwrap(x) for x in xs]
+                r = xs[0]
+                for x in xs[1:]:
+                    r = If(x < r, x, r) if op == "<" else If(x > r, x, r)
+                return it.simp(r)
+            best, bk = xs[0], (it.call(key, [xs[0]], {}) if key is not None else xs[0])
+            for x in xs[1:]:
+                kx = it.call(key, [x], {}) if key is not None else x
+                if it.branch(it.truthy(it.order(op, kx, bk))):
+                    best, bk = x, kx
+            return best
+
         @reg("min")
         def _min(it, a, k):
-            xs = it.iterate(a[0]) if len(a) == 1 else a
-            xs = [it.unwrap(x) for x in xs]
-            if not xs:
-                raise PyRaise("ValueError", "min() arg is an empty sequence")
-            r = xs[0]
-            for x in xs[1:]:
-                r = If(x < r, x, r)
-            return it.simp(r)
+            return _extreme(it, a, k, "<")
 
         @reg("max")
         def _max(it, a, k):
-            if k:
-                raise Unsupported("max with key")
-            xs = it.iterate(a[0]) if len(a) == 1 else a
-            xs = [it.unwrap(x) for x in xs]
-            if not xs:
-                raise PyRaise("ValueError", "max() arg is an empty sequence")
-            r = xs[0]
-            for x in xs[1:]:
-                r = If(x > r, x, r)
-            return it.simp(r)
+            return _extreme(it, a, k, ">")
 
         @reg("sum")
         def _sum(it, a, k):
